@@ -1,0 +1,53 @@
+//go:build verif
+
+package event
+
+// Machine-checked contracts (govc, see /verif/DESIGN.md). Comment-only file.
+
+// ---- C34: a notary request is turned into events for the handlers (which then co-sign
+// the main transaction) only if it passed every check of the preparator, and a parser
+// registered for a single call accepts exactly one call.
+
+//@ ghost pred cosignersValid() bool
+//@ ghost pred notaryAttributeValid() bool
+//@ ghost pred witnessesValid() bool
+//@ ghost pred fallbackNotYetValid() bool
+//@ ghost pred firstCallExpected() bool
+
+//@ func (preparator).validateCosigners
+//@   property C34
+//@   defines err == nil ==> cosignersValid()
+//@ func (preparator).validateAttributes
+//@   property C34
+//@   defines err == nil ==> notaryAttributeValid()
+//@ func (preparator).validateWitnesses
+//@   property C34
+//@   defines err == nil ==> witnessesValid()
+
+// the main transaction must be handled strictly before its fallback becomes valid
+//@ ghost pred chainHeight() uint32
+//@ callrule expiration_height_fact in (preparator).validateExpiration
+//@   property C34
+//@   callee *).BlockCount
+//@   pureeffect
+//@   defines chainHeight() == res0
+//@ func (preparator).validateExpiration
+//@   property C34
+//@   mode bv
+//@   ensures [fallback_not_valid_before_strictly_in_the_future] err == nil ==> chainHeight() < nvb.Height
+//@   defines err == nil ==> fallbackNotYetValid()
+
+//@ func (preparator).Prepare
+//@   property C34
+//@   ensures [events_only_after_every_check] err == nil ==> cosignersValid() && notaryAttributeValid() && witnessesValid() && fallbackNotYetValid()
+
+// a unary parser sees exactly one contract call
+//@ callrule unary_parser_gets_single_call in acceptOnlySingleCall$1
+//@   property C34
+//@   callee dynamic:freevar.unaryParser
+//@   requires [exactly_one_call] len(events) == 1
+
+//@ func NotaryTypeFromString
+//@   property C34
+//@   pureeffect
+//@   ensures [same_string] result == str
